@@ -209,6 +209,10 @@ def smt(e, vars_):
         f, a = e[1][1], e[2]
         if f == 'negb' and len(a) == 1:
             return '(not %s)' % smt(a[0], vars_)
+        if f in ('h_vendor', 'h_type', 'h_flags', 'h_payload_length') and len(a) == 1 and a[0][0] == 'id':
+            # a field of the AVP header read at the start of the input (py: inputs_of_residual lays the six octets out)
+            vars_.add('HDR_' + f[2:])
+            return 'v_HDR_' + f[2:]
         if f == 'len' and len(a) == 1 and a[0][0] == 'id':
             vars_.add('len_' + a[0][1])
             return 'v_len_' + a[0][1].replace("'", '_q')
@@ -289,6 +293,18 @@ def inputs_of_residual(res, params):
     for (o, k, x) in chain:
         vars_.add(x)
         cons.append('(< v_%s %d)' % (x.replace("'", '_q'), 256 ** k))
+    hdr = any(v.startswith('HDR_') for v in vars_)
+    if hdr and not chain:
+        # the input starts with an AVP header: LL..HM | length low | vendor | attribute type
+        for v in ('HDR_vendor', 'HDR_type', 'HDR_flags', 'HDR_payload_length', 'HDR_o1', 'HDR_o2'):
+            vars_.add(v)
+        cons += ['(< v_HDR_o1 256)', '(< v_HDR_o2 256)', '(< v_HDR_vendor 65536)', '(< v_HDR_type 65536)',
+                 '(= v_HDR_flags (mod v_HDR_o1 64))', '(>= (+ (* (div v_HDR_o1 64) 256) v_HDR_o2) 6)',
+                 '(= v_HDR_payload_length (- (+ (* (div v_HDR_o1 64) 256) v_HDR_o2) 6))']
+        off = 6
+        for v in list(vars_):
+            if v.startswith('len_') and v[4:] not in lens:
+                cons.append('(= v_%s (ite (>= v_len_l 6) (- v_len_l 6) 0))' % v.replace("'", '_q'))
     cons.append('(>= v_len_l %d)' % off)
     cons.append('(<= v_len_l 70000)')
     out = []
@@ -302,6 +318,9 @@ def inputs_of_residual(res, params):
         for (o, k, x) in chain:
             v = m.get(x.replace("'", '_q'), 0)
             data[o:o + k] = (v % (256 ** k)).to_bytes(k, 'big')
+        if hdr and not chain and n >= 6:
+            data[0:6] = bytes([m.get('HDR_o1', 0) & 255, m.get('HDR_o2', 6) & 255]) + (m.get('HDR_vendor', 0) & 0xffff).to_bytes(2, 'big') \
+                + (m.get('HDR_type', 0) & 0xffff).to_bytes(2, 'big')
         ps = {p: m.get(p, 0) for p in params}
         item = (ps, bytes(data))
         if item not in out:
